@@ -64,6 +64,10 @@ def make_scratch(run_id, files):
     exdir = os.path.join(crate, "examples")
     if os.path.isdir(exdir):
         shutil.rmtree(exdir)
+    # nightly features the harness modules need (only under cfg(kani)); shifts line numbers of lib.rs by one
+    lib = os.path.join(crate, "src", "lib.rs")
+    t = open(lib).read()
+    open(lib, "w").write("#![cfg_attr(kani, feature(allocator_api))]\n" + t)
     # 2. append harness modules (cfg(kani) only)
     hf = harness_files()
     common = os.path.join(VERIF, "harness", "common.rs")
@@ -75,7 +79,7 @@ def make_scratch(run_id, files):
             # the repository no longer has this file: harness cannot be attached
             raise FileNotFoundError(src)
         with open(src, "a") as f:
-            f.write("\n#[cfg(kani)] %s mod verif_kani { include!(\"%s\"); }\n" % (ALLOW, hf[rel]))
+            f.write("\n#[cfg(kani)] %s pub(crate) mod verif_kani { include!(\"%s\"); }\n" % (ALLOW, hf[rel]))
     return dst, crate
 
 
